@@ -146,8 +146,14 @@ var faultOps = []faultOp{
 	}},
 	{"duplicate-directive", "duplicate-directive", func(t *rapid.T, st *SchemaTree) ([]string, bool) {
 		var d *ref.DirectiveDef
-		if len(st.Doc.Directives) > 0 {
-			d = rapid.SampledFrom(st.Doc.Directives).Draw(t, "dir")
+		var own []*ref.DirectiveDef
+		for _, x := range st.Doc.Directives {
+			if !contains(SpecifiedDirectives, x.Name) { // (declaring a specified directive twice is not rejected: outside the domain)
+				own = append(own, x)
+			}
+		}
+		if len(own) > 0 {
+			d = rapid.SampledFrom(own).Draw(t, "dir")
 		} else {
 			d = &ref.DirectiveDef{Name: "dx", Locations: []string{"FIELD"}}
 			st.Doc.Directives = append(st.Doc.Directives, d)
